@@ -246,6 +246,7 @@ class BatonLoop(SimLoop):
     def attach(self, sched):
         self.sched = sched
         self.block_hook = self._baton_block
+        self.unwoken = []  # handles queued without a wake-up and never run
 
     def _run_once(self):
         s = self.sched
@@ -274,6 +275,17 @@ class BatonLoop(SimLoop):
         if self._woken:
             self._woken = False
             return True
+        # Nobody else can run and nobody woke us.  Whatever sits in the ready queue now was
+        # put there by another thread *without* a wake-up: a real loop stays in its poller
+        # until the next timer / I/O event, or for ever if there is none.  SimLoop would run
+        # the queue in its last iteration; take it away so that the loss is observable.
+        if self._ready:
+            sched = self._scheduled
+            if not any(not h._cancelled for h in sched) and \
+                    (self.net is None or self.net.next_time() is None):
+                self.unwoken.extend(self._ready)
+                self._ready.clear()
+                self.log.ev("loop.unwoken", len(self.unwoken))
         return False
 
     def _is_woken(self):
@@ -372,6 +384,8 @@ def sim_threading(sched, real_threading, obs=None):
             if self.spurious is not None and self.spurious():
                 tok[0] = True
                 log.ev("cv.spurious")
+                if obs is not None:
+                    obs("cv.spurious", 1)
             else:
                 self._waiters.append(tok)
             self._owner = None
